@@ -41,6 +41,13 @@ func FnFullName(f *ssa.Function) string {
 	if o := f.Origin(); o != nil {
 		f = o
 	}
+	if f.Prog != nil {
+		if fc := funcCanonOf[f.Prog]; fc != nil {
+			if s, ok := fc.alias[f]; ok {
+				return s
+			}
+		}
+	}
 	if obj, ok := f.Object().(*types.Func); ok && obj != nil {
 		return obj.FullName()
 	}
